@@ -193,7 +193,6 @@ def chunk(tables_and_streams):
             if r != m:
                 bad.append({"kind": "tie", "table": [pre, post, {k: list(v) for k, v in inf.items()}],
                             "stream": " ".join(s), "impl": r, "model": m})
-                continue
             if with_oracle and len(s) <= 7:
                 acc = oracle(pre, post, inf, tuple(s))
                 if r == "ERR" or r.startswith("EXC"):
